@@ -355,7 +355,51 @@ def rule_stopflag(fx, rep, ex, arms):
         ok = False
         rep.violation("C05-STOPFLAG", "C05-STOPFLAG/stop-arm", ("the Stop arm raises the stop flag only under the additional condition(s) " + str(extra[:2]) + ": a `stop` can be ignored while an unbounded search is running, which then never answers")
                       if extra else "the Stop arm never calls Control::stop", {"fn": ex.name, "file": ex.file, "line": sc[0][1].get("line") if sc else None})
-    rep.rule("C05-STOPFLAG", n, 3, ok, "the stop flag is only raised, and raised whenever a handle is installed")
+    # (c) the poll honours the flag: should_stop answers `false` only after having read the flag as clear, or on the
+    # node-count throttle (which releases by itself: the node counter only grows)
+    for key, msg, site in stop_ignored(fx):
+        n += 1
+        ok = False
+        rep.obligation(False)
+        rep.violation("C05-STOPFLAG", "C05-STOPFLAG/" + key, msg + ": a `stop` (or an expired limit) is then not acted on while that condition holds, and the go is not answered", site)
+    n += 1
+    rep.obligation(True)
+    rep.rule("C05-STOPFLAG", n, 4, ok, "the stop flag is only raised, raised whenever a handle is installed, and honoured by the poll")
+
+
+def stop_ignored(fx):
+    """[(key, msg, site)] for paths of TimeStrategy::should_stop that answer `false` without having seen the stop flag clear and
+    that are not the node-count throttle. A condition on other state of the strategy (say, "still in the first iteration")
+    does not go away by searching on, so a stop request raised meanwhile is ignored for as long as it holds."""
+    b = fx.one("TimeStrategy::should_stop")
+    paths = decision_paths(b, max_paths=400)
+    out = []
+    if not paths:
+        return out
+    seen = set()
+    for conds, ret, _bb in paths:
+        if ret is None:
+            continue
+        r = deep_strip(ret)
+        if not (isinstance(r, tuple) and r and r[0] == "const" and r[1] in (0, False)):
+            continue
+        flag_clear = any(_is_force_cond(c) and v == 0 for c, v in conds)
+        if flag_clear:
+            continue
+        # the throttle: the deciding (last) condition compares the node-count parameter
+        others = [(c, v) for c, v in conds if not _mentions_other_param(c)]
+        if conds and _mentions_other_param(conds[-1][0]) and not others:
+            continue
+        if not conds:
+            key, what = "poll/unconditional", "should_stop answers `false` unconditionally"
+        else:
+            c = (others or conds)[-1][0]
+            key, what = "poll/flag-not-read", f"should_stop answers `false` under `{show(c)[:80]}` without having read the stop flag"
+        if key in seen:
+            continue
+        seen.add(key)
+        out.append((key, what, {"fn": b.name, "file": b.file, "line": b.line}))
+    return out
 
 
 # ---- C05-HELD ------------------------------------------------------------------------------
@@ -827,6 +871,10 @@ def rule_noblock(fx, rep, ex, arms, names=("IsReady", "Quit", "Position", "Debug
 
 U = "src/engine/uci/mod.rs"
 MUTANTS = [
+    {"name": "polls of the first iteration answer false without reading the flag (seed C09-5a)", "expect": "C05-STOPFLAG/poll",
+     "edits": [("src/engine/search/time_control.rs", "    next_check_at: u64,\n", "    next_check_at: u64,\n    current_depth: u8,\n"),
+               ("src/engine/search/time_control.rs", "            next_check_at: params::CHECK_TERMINATION_NODE_FREQUENCY,\n", "            next_check_at: params::CHECK_TERMINATION_NODE_FREQUENCY,\n            current_depth: 1,\n"),
+               ("src/engine/search/time_control.rs", "        if nodes_visited < self.next_check_at {\n            return false;\n        }", "        if self.current_depth <= 1 || nodes_visited < self.next_check_at {\n            return false;\n        }")]},
     {"name": "hashfull computed with an integer division by the table size (seeds C19-3 / C04-4b / C05-5b)", "expect": "C05-PANIC",
      "edits": [("src/engine/transposition_table.rs", "        let decimal = self.occupied as f32 / self.data.len() as f32;\n        let permille = decimal * 1000.0;\n        permille as usize", "        self.occupied * 1000 / self.data.len()")]},
     {"name": "benign: Option-typed limits, None = no limit (match form)", "benign": True, "edits": shared_mutants.OPT_MATCH},
